@@ -116,26 +116,42 @@ def _thm_key(th):
     return (sorted(_term_key(h) for h in th.hyps), _term_key(th.prop))
 
 
+def _type_key(T):
+    from checks.c03 import read_type
+    return repr(read_type(T))
+
+
 def _args_key(a):
-    from kernel.term import Term
-    from kernel.type import Type
+    """structural key of rule arguments; never goes through holpy's printer (which depends on the
+    current theory and settings)"""
+    from kernel.term import Term, Inst
+    from kernel.type import Type, TyInst
     if a is None:
         return None
     if isinstance(a, Term):
         return ('t', _term_key(a))
     if isinstance(a, Type):
-        return ('T', str(a))
+        return ('T', _type_key(a))
+    if isinstance(a, Inst):
+        return ('inst', sorted((str(k), _args_key(v)) for k, v in a.items()),
+                sorted((str(k), _type_key(v)) for k, v in a.tyinst.items()),
+                sorted((str(k), _args_key(v)) for k, v in a.var_inst.items()),
+                sorted((str(k), str(v)) for k, v in a.abs_name_inst.items()))
+    if isinstance(a, TyInst):
+        return ('tyinst', sorted((str(k), _type_key(v)) for k, v in a.items()))
     if isinstance(a, (tuple, list)):
         return [_args_key(x) for x in a]
     if isinstance(a, dict):
         return sorted((str(k), _args_key(v)) for k, v in a.items())
-    return str(a)
+    if isinstance(a, (str, int, bool)):
+        return a
+    return type(a).__name__
 
 
 def state_digest(state):
     out = []
     _walk(state.prf, out)
-    vs = sorted((v.name, str(v.T)) for v in state.vars)
+    vs = sorted((v.name, _type_key(v.T)) for v in state.vars)
     return hashlib.sha256(repr((vs, out)).encode()).hexdigest()[:20]
 
 
